@@ -101,7 +101,7 @@ def check(ctx):
     ss = sb.summarize(sf)
     rt = ss.ret()
     inner = rt[2][0] if rt[0] == "call" and rt[1] == ("global", "list") else rt
-    oks = inner[0] == "call" and inner[1] == ("global", "sorted") and inner[2] and inner[2][0] == ("param", "features") and dict(inner[3]).get("key", ("x",))[0] == "lambda" \
+    oks = inner[0] == "call" and inner[1] == ("global", "sorted") and inner[2] and inner[2][0] == ("param", "features") and dict(inner[3]).get("key", ("x",))[0] in ("lambda", "closure") \
         and dict(inner[3]).get("reverse", ("const", False)) == ("const", False)
     ctx.ob("C16.R2.sorted", f"{sf.qualname}|stable sort by a key", oks, sf.where(), "sorted(features, key=..)" if oks else f"_sort_features is {ir.show(rt, maxdepth=3)}")
     if oks:
@@ -138,9 +138,20 @@ def check(ctx):
            "active levels and dropped levels are rebuilt from empty lists, one fixed effect at a time" if ok_loops else "active / dropped level lists are not rebuilt per fixed effect")
     if ok_loops:
         ab, ib = afe1[4], ic1[4]
-        okx = ab[0] == "mut" and ab[2] == "extend" and ab[3][0][0] == "sub" and ab[3][0][2] == ("slice", ("const", 1), ("const", None), ("const", None))
-        oki = ib[0] == "mut" and ib[2] == "append" and ib[3][0][0] == "sub" and ib[3][0][2] == ("const", 0)
-        same = okx and oki and ab[3][0][1] == ib[3][0][1]
+        def added(t_):
+            """what one pass adds to the list: ('extend', y) for x.extend(y) / x += y / x = x + y;  ('append', v) for x.append(v) / x += [v]"""
+            if t_[0] == "mut" and t_[2] in ("append", "extend") and len(t_[3]) == 1:
+                return t_[2], t_[3][0]
+            if t_[0] == "bin" and t_[1] == "+" and t_[2][0] == "loopin":
+                y = t_[3]
+                if y[0] == "list" and len(y[1]) == 1:
+                    return "append", y[1][0]
+                return "extend", y
+            return None, None
+        (kx, vx), (ki, vi) = added(ab), added(ib)
+        okx = kx == "extend" and vx[0] == "sub" and vx[2] == ("slice", ("const", 1), ("const", None), ("const", None))
+        oki = ki == "append" and vi[0] == "sub" and vi[2] == ("const", 0)
+        same = okx and oki and vx[1] == vi[1]
         ctx.ob("C16.R3.drop-first", f"{pd_.qualname}|first active level of each effect absorbed by the intercept", same, pd_.where(),
                "for each effect: active += levels[1:], dropped += levels[0] of the same list of active levels" if same
                else "the level dropped for the intercept is not the first of the active levels of that effect (or the rest is not kept)")
@@ -167,8 +178,19 @@ def check(ctx):
                         detail = ("active = expanded levels with a positive column sum over rows with reporting & unit_category == 'expected'" if okact
                                   else f"fitting rows are selected by {ir.show(fit[2], maxdepth=4)}")
                 # expanded names: columns starting with '<effect>_'
-                okexp = ALLEXP[0] == "comp" and "startswith" in ir.show(ALLEXP[3][0][2][0], maxdepth=5) and "'_'" in ir.show(ALLEXP[3][0][2][0], maxdepth=8) \
-                    and ir.show(ALLEXP[3][0][1], maxdepth=1).endswith(".columns")
+                def _prefix_test(c_, elem_):
+                    """<column name>.startswith(tuple(f'{effect}_' for effect in self.fixed_effect_cols))  (the def-use engine writes
+                    any(x.startswith(..) for ..) and `effect + "_"` the same way)"""
+                    if not (c_[0] == "call" and c_[1] == ("attr", elem_, "startswith") and len(c_[2]) == 1):
+                        return False
+                    a_ = c_[2][0]
+                    if a_[0] == "call" and a_[1] in (("global", "tuple"), ("global", "list")) and len(a_[2]) == 1:
+                        a_ = a_[2][0]
+                    if not (a_[0] == "comp" and len(a_[3]) == 1 and a_[3][0][1] == _A("fixed_effect_cols") and not a_[3][0][2]):
+                        return False
+                    return a_[2] == ("fstr", (("elem", _A("fixed_effect_cols"), a_[4]), ("const", "_")))
+                okexp = ALLEXP[0] == "comp" and len(ALLEXP[3]) == 1 and len(ALLEXP[3][0][2]) == 1 and ALLEXP[2] == ("elem", ALLEXP[3][0][1], ALLEXP[4]) \
+                    and _prefix_test(ALLEXP[3][0][2][0], ALLEXP[2]) and ir.show(ALLEXP[3][0][1], maxdepth=1).endswith(".columns")
                 ctx.ob("C16.R3.expanded-names", f"{pd_.qualname}|expanded levels = dummy columns '<effect>_*'", okexp, pd_.where(),
                        "expanded levels are the columns named '<effect>_<level>'" if okexp else f"expanded levels are {ir.show(ALLEXP, maxdepth=4)}")
                 okE = efe1[0] == "comp" and efe1[3][0][1] == ALLEXP and len(efe1[3][0][2]) == 1 and efe1[3][0][2][0][0] == "cmp" and efe1[3][0][2][0][1] == "not in" \
@@ -238,15 +260,26 @@ def check(ctx):
            "get_dummies(columns=effects, prefix=effects, prefix_sep='_')" if okg else "dummy naming differs from what the level bookkeeping expects")
 
     # ---- R7 -------------------------------------------------------------------------------------------
-    loops = [n for n in util.own_nodes(pd_, ast.For) if "states_for_separate_model" in ast.unparse(n.iter)]
-    ctx.sites("C16.R7", len(loops), 1, "loop over states_for_separate_model in prepare_data")
-    lp = loops[0]
-    first = lp.body[0]
-    ok7 = (isinstance(first, ast.If) and isinstance(first.test, ast.Compare) and isinstance(first.test.ops[0], ast.NotIn)
-           and isinstance(first.body[0], ast.Continue) and "isclose(df.reporting, 1)" in ast.unparse(first.test.comparators[0]).replace("np.", "")
-           and "postal_code" in ast.unparse(first.test.comparators[0]))
-    ctx.ob("C16.R7.states", f"{pd_.qualname}|per-state copies only for states with reporting rows", ok7, pd_.where(first),
-           "a state without reporting rows is skipped (no all-zero feature column)" if ok7 else f"state loop starts with {ast.unparse(first)[:120]}")
+    # every per-state feature copy `df[f"{feature}_{state}"] = ..` is written under `state in <postal codes of the rows with reporting == 1>`
+    # (whether the loop skips the other states with a guard clause or wraps the copies in the conditional: the program model has one form)
+    STATES = _A("states_for_separate_model")
+    writes = []
+    s_pd = ctx.builder().summarize(pd_, self_cls=cls)
+    for pc, name, t, n in s_pd.assigns:
+        if t[0] == "setitem" and t[2][0] == "fstr" and any(x[0] == "elem" and x[1] == STATES for x in t[2][1]) and any(x[0] == "elem" and x[1] == _A("features") for x in t[2][1]):
+            writes.append((pc, t, n))
+    ctx.sites("C16.R7", len(writes), 1, "per-state feature copies in prepare_data")
+    for pc, t, n in writes:
+        st_elem = next(x for x in t[2][1] if x[0] == "elem" and x[1] == STATES)
+        ok7 = False
+        for c, pol in pc:
+            if c[0] == "cmp" and ((c[1] == "in" and pol) or (c[1] == "not in" and not pol)) and c[2] == st_elem:
+                txt = ir.show(c[3], maxdepth=8).replace("numpy.", "")
+                if "isclose(" in txt and ".reporting, 1)" in txt and ".postal_code.unique()" in txt:
+                    ok7 = True
+        ctx.ob("C16.R7.states", f"{pd_.qualname}|per-state copies only for states with reporting rows", ok7, pd_.where(n),
+               "a state without reporting rows gets no copy (no all-zero feature column)" if ok7
+               else f"the per-state copy is written under {[ir.show(c, maxdepth=4) + ('' if pol else ' [negated]') for c, pol in pc if not ir.show(c).startswith('<loop')]}")
 
     # ---- R8 bootstrap callers ---------------------------------------------------------------------------
     bcls = repo.cls(BM, "BootstrapElectionModel")
